@@ -258,7 +258,9 @@ fn prepare(cx: &mut Ctx, ep: &str, sa: &str, sb: &str, key: &str) -> Result<Prep
             Box::new(move || private_batch_num_leaves_from_padded_pi_len(len).is_ok())
         }
         "pub_parser" => {
-            let (va, vb) = (vz(a), vz(b));
+            // the slice is layout-consistent with the counts it is parsed with whenever that is representable
+            // (0 and 65 included), so that ONLY the count guard can reject it; huge counts fall back to a 1x1 slice
+            let (va, vb) = if a <= 70 && b <= 70 { (a, b) } else { (vz(a), vz(b)) };
             let mut v = vec![0u64; 12 + 14 * va * vb];
             v[11] = 2 * (va * vb) as u64;
             Box::new(move || PublicBatchPublicInputs::try_from_u64_slice(&v, b, a).is_ok())
